@@ -188,6 +188,40 @@ func (e *Env) RunCheck(ctx context.Context, ev *CheckEv, ts *typesystem.TypeSyst
 			allowed = res.Allowed
 		}
 		checker.Close()
+	case strings.HasPrefix(ev.Eng, "v1c:"):
+		// default engine, forced strategy, query cache shared by the requests of the current case
+		resolver, closer, berr := graph.NewOrderedCheckResolvers(
+			graph.WithCachedCheckResolverOpts(true, graph.WithExistingCache(e.CaseCache()), graph.WithCacheTTL(time.Minute)),
+			graph.WithLocalCheckerOpts(graph.WithPlanner(&Forced{strings.TrimPrefix(ev.Eng, "v1c:")}))).Build()
+		if berr != nil {
+			err = berr
+			break
+		}
+		cmd := commands.NewCheckCommand(e.DS, resolver, ts)
+		var res *commands.CheckResult
+		res, err = cmd.Execute(ctx, &commands.CheckCommandParams{StoreID: e.StoreID,
+			TupleKey:         tuple.NewCheckRequestTupleKey(ev.O.String(), ev.R, ev.U.String()),
+			ContextualTuples: CtxTuples(ev.Ctxt), Context: ev.Ctx.ToProto(), Consistency: consistency(ev.HC)})
+		if res != nil {
+			allowed = res.Allowed
+		}
+		closer()
+	case strings.HasPrefix(ev.Eng, "v2c:"):
+		if mg == nil {
+			err = fmt.Errorf("no model graph")
+			break
+		}
+		q := commands.NewCheckQuery(commands.WithCheckQueryV2Datastore(e.DS), commands.WithCheckQueryV2Model(mg),
+			commands.WithCheckQueryV2Planner(&Forced{strings.TrimPrefix(ev.Eng, "v2c:")}), commands.WithCheckQueryV2ConcurrencyLimit(10),
+			commands.WithCheckQueryV2UpstreamTimeout(3*time.Second), commands.WithCheckQueryV2Cache(e.CaseCache()),
+			commands.WithCheckQueryV2QueryCacheEnabled(true), commands.WithCheckQueryV2QueryCacheTTL(time.Minute))
+		var res *commands.CheckResult
+		res, err = q.Execute(ctx, &commands.CheckCommandParams{StoreID: e.StoreID,
+			TupleKey:         tuple.NewCheckRequestTupleKey(ev.O.String(), ev.R, ev.U.String()),
+			ContextualTuples: CtxTuples(ev.Ctxt), Context: ev.Ctx.ToProto(), Consistency: consistency(ev.HC)})
+		if res != nil {
+			allowed = res.Allowed
+		}
 	case strings.HasPrefix(ev.Eng, "v2:"):
 		if mg == nil {
 			err = fmt.Errorf("no model graph")
